@@ -114,6 +114,7 @@ def coq_check(pid, props_files, extract_file):
 # running driver and model
 # ----------------------------------------------------------------------------------------------
 CRASH_CAP = 40
+CHUNK = 10000
 
 def _big_stack():
     import resource
@@ -124,7 +125,13 @@ def _big_stack():
 
 def run_lines(exe, lines, per_batch_timeout=600, env=None):
     """Feed lines to exe (one output line per input line).  A crash or hang is attributed to the
-    first case without an output line; the run resumes after it."""
+    first case without an output line; the run resumes after it.  The input is fed in chunks of CHUNK lines per process, so that the
+    time limit applies to a bounded amount of work (a large thorough-tier case list is not a hang)."""
+    if len(lines) > CHUNK:
+        out = []
+        for k in range(0, len(lines), CHUNK):
+            out.extend(run_lines(exe, lines[k:k + CHUNK], per_batch_timeout, env))
+        return out
     out = []
     i = 0
     e = dict(os.environ)
